@@ -19,6 +19,13 @@ CLAIMS = {
             "Trusted: Lean kernel; translator + harness; crash-freedom of the standard library parsers on arbitrary bytes is assumed (exercised, not proved); invalid UTF-8 is checked for crash-freedom only."),
 }
 
+CLAIMS["C03"] = ("Lean refinement theorem convert_is_spec: for every session, option set, inverse function and numeric structure, the converter model (loops threading fix id, running distance, last position and date state) equals the declarative conversion Spec.convert; from the declarative form: lap selection 2..L-1 (empty below 3 laps), lap constants, fixes = first row + GPS-updated rows, fix ids id, id+1, … running on across laps (fix_ids), first fix at distance 0 / offset 0, offsets = row time − first row time, distances = running sum of inverse distances, overall = round1dp(last distance), carried fields. Tie: differential correspondence real decoder+converter vs model vs spec on generated sessions, with real WGS-84 inverse results as the oracle table.",
+                 "Trusted: Lean kernel; harness; geodesic.Inverse a parameter; float64 rounding not in theorems (bit-exact comparison in the correspondence).")
+CLAIMS["C11"] = ("Lean theorems: interpolation disabled leaves the session untouched; fresh readings and non-GPS rows are never modified; a GPS-updated row after the first fresh reading gets, per present channel, the predictor's value at its timestamp (interpolated); sessions without OBD columns or whose OBD never updates pass through unchanged (no_obd_ok) — for all sessions; over exact rationals the default predictor equals the linear interpolation of the two surrounding fresh readings (linear_between, linear_at_knot, lerp_is_chord) for every strictly increasing reading series. Tie: correspondence of the real PredictOBD+converter against the model on arbitrary GPS/OBD interleavings and predictors.",
+                 "Trusted: Lean kernel; harness; gonum predictors and the reflection loops are modelled; gonum's documented Fit panics (duplicate timestamps) are reproduced by the model and lie outside the property.")
+CLAIMS["C12"] = ("Lean theorems for every session, option set and start date D: converting with D equals converting without it with every lap date and fix date moved by the single constant D − midnightUTC(first converted row) (shift_constant on the declarative spec, shift_constant_model on the converter model via the C03 refinement); without the option the shift is 0; differences between timestamps are preserved. Tie: impl-vs-impl metamorphic correspondence (with/without start date) incl. D = logged day and sessions crossing midnight.",
+                 "Trusted: Lean kernel; harness; Go time arithmetic modelled as Int ns.")
+
 NA_REASON = "check under construction in this round (design in DESIGN.md); will be claimed once its model, theorems and correspondence exist"
 
 
